@@ -15,6 +15,8 @@ comment remover, semicolon inserter).  `r.val` is the documented meaning and
 -/
 import PubModel.C07.Theorems
 import PubModel.C07.LemmasJson
+import PubModel.C07.LemmasSound
+import PubModel.C07.LemmasTokens
 
 namespace PubModel.C09
 open PubModel.C07
@@ -23,22 +25,51 @@ section
 variable {φ : Type} (cfg : Cfg) (hcfg : CfgOK cfg) (L : Leaf φ)
 include hcfg
 
-/-- **toJSON_denotes** (rendered documents): for every surface tree `r` whose leaves the
-    delegated functions accept, `ToJSON` succeeds and emits the canonical JSON text of
-    the documented meaning of `r` — Go-style integers by their Go value
-    (`go_integer_denotes`), floats as `strconv.ParseFloat` reads them, strings as
-    `strconv.Unquote` reads them, bare keys as their spelling, dotted identifier lists
-    as arrays of strings; the sign `+` is dropped and `-` kept.
-
-    Full statement (every accepted input, not only renderings), not yet proved:
-      `toJSONToks cfg L ts = .ok out → ∃ r j rest, ts.map (·.tok) = r.toks ++ rest ∧
-         r.val L = some j ∧ out = emit L j`
-    (the converse direction: induction over the parser with the invariant "no error so
-    far"); the correspondence run covers it on every generated input meanwhile. -/
+/-- **toJSON_denotes, rendered documents** (the direction "every rendering is accepted
+    with its meaning"; kept under its old name): for every surface tree `r` whose leaves the
+    delegated functions accept, `ToJSON` succeeds and emits the canonical JSON text of the
+    documented meaning of `r` — Go-style integers by their Go value (`go_integer_denotes`),
+    floats as `strconv.ParseFloat` reads them, strings as `strconv.Unquote` reads them, bare
+    keys as their spelling, dotted identifier lists as arrays of strings; the sign `+` is
+    dropped and `-` kept.  The converse, for every accepted input, is `toJSON_denotes`. -/
 theorem toJSON_denotes_partial (r : RV) (j : JV (Num φ)) (hv : r.val L = some j) (hw : r.WF)
     (rest : List Tok) (hf : FollowOK rest) :
     toJSONToks cfg L (plain (r.toks ++ rest)) = .ok (emit L j) :=
   parse_render cfg hcfg L r j hv hw rest hf
+
+/-- **toJSON_denotes**: *whenever* JSONx accepts an input — any character string — the
+    parser's token stream of that input is the token stream of a surface tree `r` followed
+    by what ToJSON leaves unread, and the emitted text is the canonical JSON text of the
+    documented meaning of `r`.  (Induction over the parser with the invariant "no error so
+    far", `toJSONToks_sound`; the lexer, semicolon inserter, keyworder and comment remover
+    enter through `tokens`.) -/
+theorem toJSON_denotes (cs : Chars) (out : Chars) (h : toJSON cfg L cs = .ok out) :
+    ∃ (r : RV) (j : JV (Num φ)) (rest : List Tok),
+      (tokens cfg cs).map (·.tok) = r.toks ++ rest ∧ r.WF ∧ r.val L = some j ∧ out = emit L j :=
+  toJSONToks_sound cfg hcfg L (tokens cfg cs) out h
+
+/-- the same for `Unmarshal`: the text handed to `encoding/json` is the canonical JSON
+    text of the meaning of the surface tree that was read -/
+theorem unmarshal_denotes (cs : Chars) (out : Chars) (h : unmarshal cfg L cs = .ok out) :
+    ∃ (r : RV) (j : JV (Num φ)) (rest : List Tok),
+      (tokens cfg cs).map (·.tok) = r.toks ++ rest ∧ r.WF ∧ r.val L = some j ∧ out = emit L j :=
+  unmarshalToks_sound cfg hcfg L (tokens cfg cs) out h
+
+/-- **toJSON_valid_accepted**: *whenever* JSONx accepts an input, what it emits is an
+    RFC 8259 JSON text, under the contracts of `encoding/json`'s leaf encoders (`JsonLeaf`).
+    Every float token the lexer makes starts with a digit (`tokens_floatDigit`), which is
+    the domain on which the float contract is stated. -/
+theorem toJSON_valid_accepted (hL : JsonLeaf L) (cs : Chars) (out : Chars) (h : toJSON cfg L cs = .ok out) :
+    JsonText out := by
+  obtain ⟨r, j, rest, htoks, _, hv, hout⟩ := toJSON_denotes cfg hcfg L cs out h
+  have hfl : r.FloatLits := by
+    apply floatLits_of_toks
+    intro t ht
+    have hmem : t ∈ (tokens cfg cs).map (·.tok) := by rw [htoks]; simp [ht]
+    obtain ⟨x, hx, rfl⟩ := List.mem_map.1 hmem
+    exact tokens_floatDigit cfg cs x hx
+  rw [hout]
+  exact emit_jsonText L hL.str_ok j (val_valid L hL r j hfl hv)
 
 /-- **toJSON_valid**: the emitted text is an RFC 8259 JSON text (`JsonText`: the grammar
     of RFC 8259 sections 2-7 over the decidable number and string grammars), for every
@@ -262,6 +293,17 @@ example : ∃ out, toJSONToks fixedCfg constLeaf (plain (demoTree.toks ++ [eofTo
   toJSON_valid fixedCfg fixedCfg_ok constLeaf constLeaf_json demoTree _ rfl
     (by simp [demoTree, RV.WF, RO.WF, RL.WF, leadOK])
     (by simp [demoTree, RV.FloatLits, RO.FloatLits, RL.FloatLits]; decide) _ (by simp [FollowOK, tokOp, eofTok])
+
+/-- `toJSON_denotes` and `toJSON_valid_accepted` applied to an accepted text with comments,
+    newlines, a bare key, a hex integer and a trailing comma -/
+example : ∃ (r : RV) (j : JV (Num Chars)) (rest : List Tok),
+    (tokens fixedCfg (str "{a: -0x10, // c\n \"b\": [1.5e+3,],}")).map (·.tok) = r.toks ++ rest ∧ r.WF ∧
+    r.val demoLeaf = some j ∧ str "{\"a\":-16,\"b\":[1.5e+3]}" = emit demoLeaf j :=
+  toJSON_denotes fixedCfg fixedCfg_ok demoLeaf _ _ (by decide)
+
+example : JsonText (str "{\"s\":-16,\"s\":[1.5e+3]}") :=
+  toJSON_valid_accepted fixedCfg fixedCfg_ok constLeaf constLeaf_json
+    (str "{a: -0x10, // c\n `b`: [1.5e+3,],}") _ (by decide)
 
 /-! ### the pinned tree violates the property: concrete witnesses -/
 
